@@ -46,8 +46,9 @@ def copy_ctor(ck):
     ck.touch(cc)
     src = cc.params[0]["decl"]
     fields = [f["name"] for f in rec["fields"]]
-    minf = 10 if ck.config == "nothread" else 11
-    ck.require(len(fields) >= minf, "LogMessage has %d data members, %d were confirmed by hand" % (len(fields), minf))
+    essential = {"m_context", "m_message", "m_formattedMessage", "m_attributes", "m_time", "m_type"}
+    ck.require(essential <= set(fields), "LogMessage no longer has the members %s" % sorted(essential - set(fields)))
+    ck.notes.append("LogMessage has %d data members: %s" % (len(fields), fields))
     inits = {i["member"].split("::")[-1]: i for i in cc.inits if i.get("member")}
     ptr = {"m_file": "file", "m_function": "function", "m_category": "category"}
     for fld in fields:
@@ -94,6 +95,9 @@ def context_init(ck, cc, e, src, fields):
         dangling = any(src_ctx(v, src, what) for v in vals.values())
         if dangling:
             ck.ob("C03-O1", sitestr(cc, a[idx]), False, "the copy's %s pointer is the source's pointer: it dangles as soon as the caller's buffer is freed" % what, key="LogMessage(copy)|dangling|%s" % what)
+            continue
+        if own not in fields:
+            ck.ob("C03-O1", sitestr(cc, a[idx]), False, "the copy has no owned buffer for %s (member %s is gone) and its pointer is %s" % (what, own, describe(vals[True])), key="LogMessage(copy)|rehome|%s" % what)
             continue
         ok1 = own_ok(vals[True])
         ck.ob("C03-O1", sitestr(cc, a[idx]), ok1, "%s points into the copy's own %s" % (what, own) if ok1 else "with a non-null source the copy's %s is %s" % (what, describe(vals[True])), key="LogMessage(copy)|rehome|%s" % what)
